@@ -90,7 +90,11 @@ def load_schema(xml, cache=False):
 def run_load(xml, lines, overrides=(), url=URL, cache_schema=False):
     """-> ('ok', tree, handler) | ('reject', class name, exception) | ('crash', class name, exc)"""
     import ZConfig
-    schema = load_schema(xml, cache_schema)
+    try:
+        schema = load_schema(xml, cache_schema)
+    except Exception as e:
+        # a family schema that does not even load is reported as an outcome, not a harness crash
+        return ('crash', 'schema:' + type(e).__name__, e)
     f = common.make_file(lines)
     try:
         cfg, handler = ZConfig.loadConfigFile(schema, f, url, overrides)
@@ -99,3 +103,34 @@ def run_load(xml, lines, overrides=(), url=URL, cache_schema=False):
     except Exception as e:
         return ('crash', type(e).__name__, e)
     return ('ok', cfg, handler)
+
+
+class mem_resources:
+    """Serve resources from memory: replaces BaseLoader.openResource (urlopen + read + close +
+    decode) by a lookup url -> lines, still going through createResource.  Used identically
+    in the engine and in the pristine replay worker; C19 checks the real openResource."""
+
+    def __init__(self, store):
+        self.store = store
+
+    def __enter__(self):
+        import ZConfig
+        import ZConfig.loader as L
+        self.L = L
+        self.orig = L.BaseLoader.openResource
+        store = self.store
+
+        def openResource(loader, url):
+            url = str(url)
+            if url in store:
+                return loader.createResource(common.make_file(store[url]), url)
+            raise ZConfig.ConfigurationError('error opening URL %s: not found' % url, url)
+        L.BaseLoader.openResource = openResource
+        return self
+
+    def __exit__(self, *a):
+        self.L.BaseLoader.openResource = self.orig
+
+
+BASE = 'http://m/d/'
+MAIN = BASE + 'main.conf'
